@@ -233,7 +233,7 @@ func escrowProfile() *Profile {
 		OpDelegate: 4, OpUndelegate: 2, OpRedelegate: 2, OpSend: 1, OpGov: 1, OpWithdrawTokens: 1,
 	}
 	p := &Profile{Name: "escrow", Weights: w, MinBlocks: 10, MaxBlocks: 35, MaxOps: 5, AbsentPM: 30, BadVarPM: 100, Setup: true, ThoroughScale: 3,
-		GapW: []int{3, 4, 12, 30, 4, 2, 2, 2, 3, 3, 3, 1, 1, 0}}
+		GapW: []int{3, 4, 12, 30, 4, 2, 2, 2, 3, 3, 3, 1, 1, 0, 4}}
 	p.Prefix = mintInitPrefix
 	// known finding F-C04-2 (commission rate outside [0,1]) is excluded by construction so that the
 	// search continues behind it: rates are drawn from the in-range part of the accepted set
